@@ -113,11 +113,36 @@ func sizeofT(t types.Type) int64 {
 	return stdSizes.Sizeof(t)
 }
 
+func structOffsets(st *types.Struct) []int64 {
+	fields := make([]*types.Var, st.NumFields())
+	for k := range fields {
+		fields[k] = st.Field(k)
+	}
+	return stdSizes.Offsetsof(fields)
+}
+
 func (p *viewptr) loadAt(in *interpreter, off int64, T types.Type) value {
 	switch ut := T.Underlying().(type) {
+	case *types.Struct:
+		offs := structOffsets(ut)
+		out := make(structure, ut.NumFields())
+		for k := range out {
+			out[k] = p.loadAt(in, off+offs[k], ut.Field(k).Type())
+		}
+		return out
 	case *types.Basic:
 		w, _, ok := basicInfo(T)
-		if !ok || w == 0 {
+		if ok && w == 0 {
+			if off+1 > int64(len(p.base)) {
+				panic(targetPanic{msg: "runtime error: unsafe view load out of range"})
+			}
+			b, okb := scalarByte(p.base[off])
+			if !okb {
+				panic(unsupported{reason: "view load over non-byte memory"})
+			}
+			return boolVal(tNot(tCmp("=", b, tConst(8, 0))))
+		}
+		if !ok {
 			panic(unsupported{reason: "view load of " + T.String()})
 		}
 		n := int64(w / 8)
@@ -150,9 +175,28 @@ func (p *viewptr) loadAt(in *interpreter, off int64, T types.Type) value {
 
 func (p *viewptr) storeAt(in *interpreter, off int64, T types.Type, v value) {
 	switch ut := T.Underlying().(type) {
+	case *types.Struct:
+		offs := structOffsets(ut)
+		sv := v.(structure)
+		for k := range sv {
+			p.storeAt(in, off+offs[k], ut.Field(k).Type(), sv[k])
+		}
+		return
 	case *types.Basic:
 		w, _, ok := basicInfo(T)
-		if !ok || w == 0 {
+		if ok && w == 0 {
+			if off+1 > int64(len(p.base)) {
+				panic(targetPanic{msg: "runtime error: unsafe view store out of range"})
+			}
+			e := tIte(toTerm(v), tConst(8, 1), tConst(8, 0))
+			if e.isConst() {
+				p.base[off] = uint8(e.val)
+			} else {
+				p.base[off] = &sym{e}
+			}
+			return
+		}
+		if !ok {
 			panic(unsupported{reason: "view store of " + T.String()})
 		}
 		n := int64(w / 8)
